@@ -13,6 +13,7 @@ Oracle: every compile / solve in the history is compared with a freshly rebuilt 
 """
 import pickle
 import random
+import warnings
 from collections import Counter
 
 import numpy as np
@@ -291,6 +292,24 @@ def run_history(ctx, hseed, maxops):
                 # (a world whose constraints are constants only does not mix anything)
                 problems.append(('a model mixing Variables of two index generations was compiled without error',
                                  {'subseed': subseed, 'hseed': hseed, 'maxops': maxops, 'trace': trace[:]}))
+                break
+            # the mix can also sit between the OBJECTIVE and the constraints: an objective over the old Variables, constraints over
+            # the new one only
+            sc = w.scalars_by_pos()
+            if sc:
+                try:
+                    with warnings.catch_warnings():
+                        warnings.simplefilter('ignore')
+                        cl.Problem(cl.MIN, sc[0] + sc[-1], [z >= 0, z <= 1])
+                    problems.append(('a Problem whose objective is over Variables of one index generation and whose constraints are over '
+                                     'Variables of the next was compiled without error (the objective silently refers to other components)',
+                                     {'subseed': subseed, 'hseed': hseed, 'maxops': maxops, 'trace': trace[:], 'mix': 'objective'}))
+                except (RuntimeError, ValueError):
+                    pass              # rejected (ValueError: the objective's components occur in no constraint)
+                except Exception as e:  # noqa: BLE001
+                    problems.append(('a Problem mixing generations between objective and constraints raised %s instead of being rejected '
+                                     'with the documented error' % type(e).__name__,
+                                     {'subseed': subseed, 'hseed': hseed, 'maxops': maxops, 'trace': trace[:], 'mix': 'objective'}))
             break
     return steps, problems, trace
 
